@@ -1571,4 +1571,174 @@ def AbsT.eqv (a b : AbsT) : Prop :=
   a.columns = b.columns ∧ a.indexes = b.indexes ∧ a.rows.map (List.map Cell.key) = b.rows.map (List.map Cell.key)
 
 
+/-! ## Phase 4: several live objects, each with its own memoised `_lohis`
+
+`Table._lohis` is per object: `None` on a new object (`where` result), the dict of `_calc_lohis` after
+`index` or after the first `where`/`groupby` (`self._lohis = self._lohis or self._calc_lohis()`), `{}`
+after an `insert` that found it truthy; `copy` hands the very value to the new object.  No `_lohis`
+dict is ever mutated in place, so a value per object is exact.  `fresh` is a ghost flag: no OTHER
+object has mutated the shared column lists since this object was made (cleared by `stepC`). -/
+
+abbrev Lohis := List (Nat × List (Nat × Nat))
+
+structure CObj where
+  t : Table
+  /-- `_lohis`: `none` = `None`, `some []` = `{}` -/
+  cache : Option Lohis
+  fresh : Bool
+  deriving Repr
+
+/-- `self._lohis or self._calc_lohis()` -/
+def effLohis (cfg : Cfg) (t : Table) : Option Lohis → Except Err Lohis
+  | some (p :: l) => .ok (p :: l)
+  | _ => t.calcLohis cfg
+
+/-- `if self._lohis: self._lohis = {}` -/
+def resetCache : Option Lohis → Option Lohis
+  | some (_ :: _) => some []
+  | c => c
+
+/-- the keyword branch of `Table.where` after `self._lohis = …` -/
+def Table.pwhereWith (cfg : Cfg) (t : Table) (lohis : Lohis) (comparison : Option Op)
+    (kws : List (Nat × Arg)) : Except Err Table := do
+  let n ← t.len
+  let selection ← whereLoop cfg t lohis n comparison kws
+  let selection := if kws.length > 1 then sortDedupNat selection else selection
+  let sel ← composeSel t.sel selection
+  pure { t with sel := sel }
+
+/-- the body of `Table.groupby` after `self._lohis = …` -/
+def Table.groupbyWith (t : Table) (lohis : Lohis) (level : Nat) (select : Select) : Except Err (List GroupOut) :=
+  match (t.indexes.take level).mapM t.col with
+  | .error e => .error e
+  | .ok grpCols =>
+    match optGet t.indexes[level]? with
+    | .error e => .error e
+    | .ok ixcol =>
+      match dictGet lohis ixcol with
+      | .error e => .error e
+      | .ok segs =>
+        match selectCols t select with
+        | .error e => .error e
+        | .ok selCols => segs.mapM (groupOne select grpCols selCols)
+
+/-- `Table.index` with the cache: the three early returns leave `_lohis` alone, otherwise
+`self._lohis = self._calc_lohis()` -/
+def Table.indexC (cfg : Cfg) (t : Table) (cache : Option Lohis) (indx : List Nat) : Except Err (Table × Option Lohis) :=
+  if indx.isEmpty then .ok (t, cache)
+  else if t.data.isEmpty then .ok (t, cache)
+  else if t.indexes = effIndex cfg t indx then .ok (t, cache)
+  else
+    match t.index cfg indx with
+    | .error e => .error e
+    | .ok t' =>
+      match t'.calcLohis cfg with
+      | .error e => .error e
+      | .ok l => .ok (t', some l)
+
+/-- `Table.insert` with the cache (same branches as `Table.insert`) -/
+def Table.insertC (cfg : Cfg) (t : Table) (cache : Option Lohis) (d : InsertData) : Except Err (Table × Option Lohis) :=
+  match t.insertRaw cfg d with
+  | .error e => .error e
+  | .ok t' =>
+    if cfg.resortInsert && !d.isEmpty && !t'.indexes.isEmpty then
+      match t'.inIndexOrder (match t.len with | .ok n => n | .error _ => 0) with
+      | .le => .ok (t', resetCache cache)
+      | .cannot => .ok ({ t' with indexes := [] }, resetCache cache)
+      | .gt =>
+        match Table.indexC cfg { t' with indexes := [] } (resetCache cache) t'.indexes with
+        | .ok r => .ok r
+        | .error .typeError => .ok ({ t' with indexes := [] }, resetCache cache)
+        | .error e => .error e
+    else .ok (t', if d.isEmpty then cache else resetCache cache)
+
+/-- after a mutation through object `i`: every object shows the mutated dict; the others are no longer fresh -/
+def shareC (d : List (Nat × List Cell)) (os : List (Option CObj)) : List (Option CObj) :=
+  os.map (fun o => o.map (fun u => { u with t := { u.t with data := d }, fresh := false }))
+
+/-- one step of the machine with caches (same shape as `step`) -/
+def stepC (cfg : Cfg) (os : List (Option CObj)) (op : TOp) : List (Option CObj) × Obs :=
+  let target (i : Nat) : Option CObj := (os[i]?).bind id
+  match op with
+  | .skip creates => (if creates then os ++ [Option.none] else os, .skipped)
+  | .peek i =>
+    match target i with
+    | Option.none => (os, .skipped)
+    | some o => (os, observe o.t)
+  | .insert i d =>
+    match target i with
+    | Option.none => (os, .skipped)
+    | some o => match o.t.insertC cfg o.cache d with
+      | .ok (t', c') => (setAt (shareC t'.data os) i (some { t := t', cache := c', fresh := o.fresh }), observe t')
+      | .error e => (setAt os i Option.none, .err e)
+  | .index i cols =>
+    match target i with
+    | Option.none => (os, .skipped)
+    | some o => match o.t.indexC cfg o.cache cols with
+      | .ok (t', c') => (setAt (shareC t'.data os) i (some { t := t', cache := c', fresh := o.fresh }), observe t')
+      | .error e => (setAt os i Option.none, .err e)
+  | .whr i pred cmp kws =>
+    match target i with
+    | Option.none => (os ++ [Option.none], .skipped)
+    | some o =>
+      match pred with
+      | some p =>
+        match o.t.pwhere cfg (some p) cmp kws with
+        | .ok t' => (os ++ [some { t := t', cache := Option.none, fresh := o.fresh }], observe t')
+        | .error e => (os ++ [Option.none], .err e)
+      | Option.none =>
+        match effLohis cfg o.t o.cache with
+        | .error e => (os ++ [Option.none], .err e)
+        | .ok l =>
+          match o.t.pwhereWith cfg l cmp kws with
+          | .ok t' => (setAt os i (some { o with cache := some l }) ++ [some { t := t', cache := Option.none, fresh := o.fresh }], observe t')
+          | .error e => (setAt os i (some { o with cache := some l }) ++ [Option.none], .err e)
+  | .groupby i level select =>
+    match target i with
+    | Option.none => (os, .skipped)
+    | some o =>
+      match effLohis cfg o.t o.cache with
+      | .error e => (os, .err e)
+      | .ok l =>
+        match o.t.groupbyWith l level select with
+        | .ok gs => (setAt os i (some { o with cache := some l }), .groups gs)
+        | .error e => (setAt os i (some { o with cache := some l }), .err e)
+  | .copy i =>
+    match target i with
+    | Option.none => (os ++ [Option.none], .skipped)
+    | some o => (os ++ [some { o with t := o.t.copy }], observe o.t.copy)
+
+def runOpsC (cfg : Cfg) : List (Option CObj) → List TOp → List Obs
+  | _, [] => []
+  | os, op :: rest => let r := stepC cfg os op; r.2 :: runOpsC cfg r.1 rest
+
+def finalC (cfg : Cfg) : List (Option CObj) → List TOp → List (Option CObj)
+  | os, [] => os
+  | os, op :: rest => finalC cfg (stepC cfg os op).1 rest
+
+def initC (init : Init) : List (Option CObj) := [some { t := init.table, cache := Option.none, fresh := true }]
+
+def runC (cfg : Cfg) (init : Init) (ops : List TOp) : List Obs :=
+  observe init.table :: runOpsC cfg (initC init) ops
+
+/-- the side condition of a step of the machine with caches: an operation on a fresh object meets the
+data-only condition `opOK` of the linear machine; nothing is asked of operations on stale objects -/
+def opOKC (cfg : Cfg) (os : List (Option CObj)) : TOp → Bool
+  | .insert i d => (match (os[i]?).bind id with | some o => !o.fresh || opOK cfg o.t (.insert d) | Option.none => true)
+  | .index i cols => (match (os[i]?).bind id with | some o => !o.fresh || opOK cfg o.t (.index cols) | Option.none => true)
+  | .whr i Option.none cmp kws => (match (os[i]?).bind id with | some o => !o.fresh || opOK cfg o.t (.whereK cmp kws) | Option.none => true)
+  | .whr i (some p) _ _ => (match (os[i]?).bind id with | some o => !o.fresh || opOK cfg o.t (.whereP p) | Option.none => true)
+  | _ => true
+
+def OKC (cfg : Cfg) : List (Option CObj) → List TOp → Bool
+  | _, [] => true
+  | os, op :: rest => opOKC cfg os op && OKC cfg (stepC cfg os op).1 rest
+
+/-- coherence of a cache as a check: `None`, `{}`, or what `_calc_lohis` gives now -/
+def cohB (cfg : Cfg) (t : Table) : Option Lohis → Bool
+  | Option.none => true
+  | some [] => true
+  | some l => (match t.calcLohis cfg with | .ok l' => decide (l' = l) | .error _ => false)
+
+
 end Coba.C17
